@@ -426,6 +426,28 @@ func genRobust() {
 			problem("expandapk.go: robust: switch numGzipStreams not found")
 		}
 		l.defStrStrList("expandSwitch", cases)
+		// the same switch as numbers: (number of streams, signatureIndex, controlDataIndex, packageIndex)
+		var rows []string
+		for _, c := range cases {
+			if !strings.HasPrefix(c[0], "<expr>") {
+				continue
+			}
+			n, err := strconv.Atoi(strings.TrimPrefix(c[0], "<expr>"))
+			vals := map[string]int{}
+			for _, a := range strings.Split(c[1], "; ") {
+				lhs, rhs, ok := strings.Cut(a, " = ")
+				v, err2 := strconv.Atoi(strings.TrimSpace(rhs))
+				if ok && err2 == nil {
+					vals[strings.TrimSpace(lhs)] = v
+				}
+			}
+			if err != nil || len(vals) != 3 {
+				problem("expandapk.go: robust: case %s of switch numGzipStreams not understood: %s", c[0], c[1])
+				continue
+			}
+			rows = append(rows, fmt.Sprintf("(%d, %d, %d, %d)", n, vals["signatureIndex"], vals["controlDataIndex"], vals["packageIndex"]))
+		}
+		l.raw("def expandCases : List (Nat × Int × Int × Int) := [" + strings.Join(rows, ", ") + "]\n")
 	}
 	l.write()
 }
